@@ -17,7 +17,8 @@ def ofLogical : Option (List (List Char)) → Json
 def specOf (out : List Char) : Json :=
   let pls := physLines out
   Json.mkObj [("phys", ofLines pls), ("maxlen", ofNat (maxLen pls)), ("shape", ofBool (shapeOk pls)),
-              ("logical", ofLogical (logical out)),
+              ("logical", ofLogical (logical out)), ("logicalC", ofLogical (logicalC out)),
+              ("bad_cont", ofNat (badContinuations false pls).length),
               ("nonblank", match logical out with | some ls => ofLines (ls.map nonblank) | none => Json.null)]
 
 def cfgOf (j : Json) : Except String Cfg := do
@@ -49,10 +50,24 @@ def handle (j : Json) : Except String Json := do
                            ("noLongTok", ofBool (noLongTok (cfg.width - cfg.indent.length) s))]
     let base := [("model", ofChars m), ("model_spec", specOf m), ("hyp", hyp),
                  ("tokens", ofLines (tokens s)), ("nonblank", ofChars (nonblank s)),
-                 ("parts", Json.arr ((splitOnC '\n' s).map fun p => ofLines (tokens p)).toArray)]
+                 ("parts", Json.arr ((splitOnC '\n' s).map fun p => ofLines (tokens p)).toArray),
+                 ("code_tokens", ofLines (tokens (code s))),
+                 ("cont", ofBool (match (splitOnC '\n' s).getLast? with | some p => flaggedC p | none => false))]
     match fieldOpt j "out" with
     | none => return Json.mkObj base
     | some o => return Json.mkObj (base ++ [("impl_spec", specOf (← str o).toList)])
+  | "lex" =>
+    -- the comment-aware lexer on a text: written file, or the unwrapped item texts joined with '\n'
+    let t := (← strField j "text").toList
+    let pls := physLines t
+    let lg := logicalC t
+    return Json.mkObj [("maxlen", ofNat (maxLen pls)),
+                       ("long", ofLines (pls.filter (·.length > 80))),
+                       ("logical", ofLogical lg),
+                       ("blank_lines", ofNat ((pls.dropLast.filter allBlank).length)),
+                       ("bad_cont", Json.arr ((badContinuations false pls.dropLast).map fun (a, b) =>
+                          Json.arr #[ofChars a, match b with | some q => ofChars q | none => Json.null]).toArray),
+                       ("bare", match lg with | some ls => ofLines (ls.filter bareLine) | none => Json.null)]
   | "file" =>
     -- text: a complete written file; the specification only
     let t := (← strField j "text").toList
